@@ -80,14 +80,14 @@ def mk_lit(cls):
     return Enum('Expr', BitVecVal(exprs.index(cls), 64), {cls: [pay]}), pay
 
 
-def job(neg, op, xcls0, lcls0):
+def job(neg, op, xcls0, lcls0, flip=False):
     t0 = time.time()
     xcls, lcls = basecls(xcls0), basecls(lcls0)
     exprs = V.variants()['Expr']; binops = V.variants()['BinOp']; unops = V.variants()['UnaryOp']
     lit, lpay = mk_lit(lcls)
     ident = Enum('Expr', BitVecVal(exprs.index('Ident'), 64), {'Ident': [V.StrTok(BitVecVal(7, 16))]})
     opv = Enum('BinOp', BitVecVal(binops.index(op), 64), {op: []})
-    cmp_e = Enum('Expr', BitVecVal(exprs.index('Binary'), 64), {'Binary': [opv, box(ident), box(lit)]})
+    cmp_e = Enum('Expr', BitVecVal(exprs.index('Binary'), 64), {'Binary': [opv, box(lit), box(ident)] if flip else [opv, box(ident), box(lit)]})       # flip: `lit OP x`
     expr = cmp_e if not neg else Enum('Expr', BitVecVal(exprs.index('Unary'), 64), {'Unary': [Enum('UnaryOp', BitVecVal(unops.index('Not'), 64), {'Not': []}), box(cmp_e)]})
     if xcls == 'missing':
         xv, cx = V.sym_value('x', ['Null']); present = BoolVal(False)
@@ -95,6 +95,9 @@ def job(neg, op, xcls0, lcls0):
         xv, cx = V.sym_value('x', [xcls]); present = BoolVal(True)
     xopt = Enum('Option', If(present, BitVecVal(1, 64), BitVecVal(0, 64)), {'Some': [box(xv)], 'None': []})
     base = eval_hooks(xopt) + str_hooks() + std_hooks() + [(r'^Box::<.*>::new$', lambda ex, st, callee, args: box(args[0]))]
+    if flip:
+        # the translation keeps a literal-first comparison as `Predicate::Expr(expr.clone())`: the clone is the same expression
+        base += [(r'^<(?:varpulis_core::)?(?:ast::)?Expr as Clone>::clone$', lambda ex, st, callee, args: ex.deref(args[0]))]
     # ---- translation (real code)
     ext = V.ValExec(_MODS, base + [(rx.pattern, fn) for rx, fn in containers.container_hooks()])
     st0 = State(); st0.path.assume(cx)
@@ -109,6 +112,19 @@ def job(neg, op, xcls0, lcls0):
         if not isinstance(pred_opt, Enum) or not pred_opt.fields.get('Some'):
             out.append(({'name': 'the filter translates to a step predicate', 'status': 'violated', 'secs': 0.0, 'kind': 'post'}, None)); continue
         pred = pred_opt.fields['Some'][0]
+        if flip:
+            pd = z3.simplify(pred.disc) if isinstance(pred, Enum) else None
+            pvs = V.variants()['Predicate']
+            if pd is None or not z3.is_bv_value(pd): raise symex.Unsupported('symbolic predicate kind')
+            kindp = pvs[pd.as_long()]
+            if kindp == 'Not':
+                inner = pred.fields['Not'][0]
+                while isinstance(inner, Ptr): inner = inner.get()
+                idd = z3.simplify(inner.disc) if isinstance(inner, Enum) else None
+                if idd is not None and z3.is_bv_value(idd) and pvs[idd.as_long()] == 'Expr': kindp = 'Expr'
+            if kindp == 'Expr':
+                # `literal OP field` is handed to the step as the expression itself (evaluated by the same evaluator as `.where`): nothing to compare
+                out.append(({'name': 'a literal-first comparison is kept as an expression (evaluated by the stream evaluator itself)', 'status': 'proved', 'secs': 0.0, 'kind': 'post'}, None)); continue
         # ---- stream side
         exs = V.ValExec(_MODS, base + [(rx.pattern, fn) for rx, fn in containers.container_hooks()])
         s1 = State(); s1.path.pc = list(tr.path.pc)
@@ -156,7 +172,7 @@ def job(neg, op, xcls0, lcls0):
                   'Bool': lambda: 'true' if z3.is_true(m.eval(lpay, True)) else 'false', 'Str': lambda: sname(ltok, xtok)}[lcls]()
             d['witness'] = {'x': [xcls, show(xv, xcls) if xcls != 'missing' else '-'], 'lit': [lcls, lv], 'stream_accepts': bool(z3.is_true(m.eval(acc_s, True))), 'step_accepts': bool(z3.is_true(m.eval(acc_p, True)))}
         verdicts.append(d)
-    return {'neg': neg, 'op': op, 'xcls': xcls0, 'lcls': lcls0, 'paths': len(verdicts), 'verdicts': verdicts, 'queries': queries, 'solver_s': solver_s, 'inconclusive': inc, 'wall_s': time.time() - t0}
+    return {'neg': neg, 'op': op, 'xcls': xcls0, 'lcls': lcls0, 'flip': flip, 'paths': len(verdicts), 'verdicts': verdicts, 'queries': queries, 'solver_s': solver_s, 'inconclusive': inc, 'wall_s': time.time() - t0}
 
 
 def _worker(a):
@@ -164,7 +180,7 @@ def _worker(a):
         return job(*a)
     except Exception as e:
         import traceback; traceback.print_exc()
-        return {'neg': a[0], 'op': a[1], 'xcls': a[2], 'lcls': a[3], 'error': '%s: %s' % (type(e).__name__, e), 'verdicts': [], 'paths': 0, 'queries': 0, 'solver_s': 0, 'inconclusive': []}
+        return {'neg': a[0], 'op': a[1], 'xcls': a[2], 'lcls': a[3], 'flip': (len(a) > 4 and a[4]), 'error': '%s: %s' % (type(e).__name__, e), 'verdicts': [], 'paths': 0, 'queries': 0, 'solver_s': 0, 'inconclusive': []}
 
 
 def run(ctx):
@@ -174,11 +190,14 @@ def run(ctx):
     from vlib.driver import Finding
     load(ctx)
     ctx.engines.append('M (MIR symbolic execution -> Z3)')
-    ctx.bounds = {'programs': '`x OP lit` and `not (x OP lit)`, OP in %s, lit in %s (payload symbolic)' % (OPS, LITS), 'events': 'x missing or %s with symbolic payload' % XCLS,
+    ctx.bounds = {'programs': '`x OP lit` and `not (x OP lit)`, OP in %s, lit in %s (payload symbolic); the literal-first form `lit OP x` on same-kind operands' % (OPS, LITS), 'events': 'x missing or %s with symbolic payload' % XCLS,
                   'composite': '`(x > l1) AND/OR (y == l2)` and its negation over two fields, each missing / Null / Int (symbolic payloads and literals)',
                   'outside': 'deeper boolean nesting, three fields, filters with calls or cross-alias references (Predicate::CompareRef / Predicate::Expr), string ordering beyond "one total order shared by both sides"'}
     ctx.assumptions += ['bindings empty; Event::get returns the symbolic field on both sides', 'strings are identity tokens ordered by one uninterpreted total order']
     tasks = [(neg, op, xc, lc) for neg in (False, True) for op in OPS for xc in XCLS + ['missing'] for lc in LITS]
+    # the literal-first form `lit OP x` (same-kind operands and a missing field): today it is kept as an expression for the step, i.e. evaluated by the stream
+    # evaluator itself; if the translation ever turns it into a step comparison, the two sides are compared like the field-first form
+    tasks += [(neg, op, xc, lc, True) for neg in (False, True) for op in OPS for xc, lc in (('IntS', 'IntS'), ('Float', 'Float'), ('Str', 'Str'), ('missing', 'IntS'))]
     from props import c09b
     with ProcessPoolExecutor(max_workers=14, mp_context=mp.get_context('fork')) as pool:
         res = list(pool.map(_worker, tasks))
@@ -205,7 +224,7 @@ def run(ctx):
             ctx.findings.append(Finding(key, '%s: %s (witness %s)' % (cls, v['name'], w), a, w))
     for r in res:
         tgt = 'where-filter vs step-filter'
-        cls = '%s%s x:%s lit:%s' % ('not ' if r['neg'] else '', r['op'], r['xcls'], r['lcls'])
+        cls = '%s%s x:%s lit:%s%s' % ('not ' if r['neg'] else '', r['op'], r['xcls'], r['lcls'], ' (literal first)' if r.get('flip') else '')
         if r.get('error'):
             ctx.inconclusive.append('%s (%s): %s' % (tgt, cls, r['error'])); continue
         for why in sorted(set(r['inconclusive'])): ctx.inconclusive.append('%s (%s): %s' % (tgt, cls, why))
@@ -214,11 +233,11 @@ def run(ctx):
         ctx.samples.append({'class': cls, 'path_pairs': r['paths']})
         for v in r['verdicts']:
             if v['status'] != 'violated': continue
-            key = 'filter:%s%s:x=%s:lit=%s:%s' % ('not:' if r['neg'] else '', r['op'], r['xcls'], r['lcls'], v['dir'])
+            key = '%s:%s%s:x=%s:lit=%s:%s' % ('filterflip' if r.get('flip') else 'filter', 'not:' if r['neg'] else '', r['op'], r['xcls'], r['lcls'], v['dir'])
             if key in seen: continue
             seen.add(key)
             w = v.get('witness') or {}
             if binp is None: binp = replay.build('rt')
-            a = [binp, 'filter', '1' if r['neg'] else '0', r['op']] + (w.get('x') or [r['xcls'], 'x']) + (w.get('lit') or [r['lcls'], 'x'])
+            a = [binp, 'filter', '1' if r['neg'] else '0', r['op']] + (w.get('x') or [r['xcls'], 'x']) + (w.get('lit') or [r['lcls'], 'x']) + (['flip'] if r.get('flip') else [])
             ctx.findings.append(Finding(key, '%s: %s (witness %s)' % (cls, v['name'], w), a, w))
     ctx.models += sorted(models.USED)
